@@ -104,6 +104,20 @@ def family(n_iter, n_entry, n_entries, n_par, n_mixed, seed=7):
         f = rnd.choice([["none"]] + [["has", c] for c in supc] + [["not", ["has", c]] for c in supc]) if supc else ["none"]
         cases.append({"kind": "entries", "id": False, "idpos": 0, "views": sub, "filter": f, "super": sup})
         k += 1
+    # single-row views (World::entry and query-time Entries): a view of any kind followed, in registry
+    # order, by a required one; the sub-view asks for the later component only (the column walk of the
+    # single-row view must step over the earlier column whatever its view kind)
+    sub_of = {"ref": "ref", "mut": "mut"}
+    for a, b in [("B", "W"), ("S", "H"), ("W", "T8")]:
+        for k1 in KINDS:
+            for k2 in ("ref", "mut"):
+                cases.append({"kind": "entries", "id": False, "idpos": 0, "views": [(b, sub_of[k2])], "filter": ["none"],
+                              "super": [(a, k1), (b, k2)]})
+                cases.append({"kind": "entry", "id": False, "idpos": 0, "views": [(a, k1), (b, k2)], "filter": ["none"]})
+    for a, b in [("B", "H"), ("S", "T8")]:
+        for k1 in ("optmut", "optref"):
+            cases.append({"kind": "entries", "id": False, "idpos": 0, "views": [(b, "ref"), (a, "optref")], "filter": ["none"],
+                          "super": [(b, "mut"), (a, k1)]})
     for _ in range(n_par):
         cases.append({"kind": "par", "id": rnd.random() < 0.5, "idpos": rnd.randint(0, 2), "views": rand_views(4), "filter": rand_filter(rnd)})
     for _ in range(n_mixed):
